@@ -198,6 +198,11 @@ const c15Bound = 10 * time.Second
 
 func init() {
 	worlds["C15"] = func(rc *RunCtx) {
+		if (rc.Index/2)%4 == 3 {
+			// one run in four goes through batchers.TailFilesToChan (zz_c15b_test.go)
+			c15BatchWorld(rc)
+			return
+		}
 		t := rc.Tape
 		fsnotify.SimReset()
 		w := &c15World{rc: rc, path: "follow.log"}
